@@ -1,9 +1,8 @@
 """C08 (extension): the tabular views of results.py that are inside the engine's subset.
 
 `bioResults.get_general_statistics` builds a plain dict label -> GeneralStatistic(value, format): proved for ALL results
-objects: every label holds the raw quantity it names (one post clause per label, plus one clause per combination of the
-five conditions under which optional rows are written -- together: all results objects); optional rows are present
-whenever their quantity exists.  The pandas-based views are decided by static obligations (specs/c08_static.py) and the bounded
+objects without Monte-Carlo draws (quick tier) and with them (thorough tier, contracts/c08_tables_mc.py): every label holds
+the raw quantity it names (one post clause per label); optional rows are present whenever their quantity exists.  The pandas-based views are decided by static obligations (specs/c08_static.py) and the bounded
 stand-in bounded/c08_tables.py.
 """
 from pyvc.contract import contract, field_type
@@ -47,43 +46,36 @@ def _slug(label):
     return ''.join(c if c.isalnum() else '_' for c in label).strip('_')
 
 
-# the five conditions under which optional rows are written
-CONDITIONS = {
-    'free': 'self.number_of_free_parameters() != self.data.nparam',
-    'obs': 'self.data.sampleSize != self.data.numberOfObservations',
-    'null': 'self.data.nullLogLike is not None',
-    'mc': 'self.data.monte_carlo',
-    'boot': 'self.data.bootstrap is not None',
-}
-_COND_OF = {'self.data.sampleSize != self.data.numberOfObservations': 'obs', 'self.data.nullLogLike is not None': 'null',
-            'self.data.monte_carlo': 'mc', 'self.data.bootstrap is not None': 'boot', 'True': None}
-
-
 def _row(label, field):
     return f"({label!r} in result and same(result[{label!r}].value, self.data.{field}))"
 
 
+_FREE = 'self.number_of_free_parameters() != self.data.nparam'
 _FREE_ROW = ("('Number of free parameters' in result and "
              "result['Number of free parameters'].value == self.number_of_free_parameters())")
-_ALL = ' and '.join(f'({c})' for c in CONDITIONS.values())
+_MC = 'self.data.monte_carlo'
 
-# (1) one clause per label, on the results objects for which every optional row is written (names the row that is wrong)
-_ENS = {}
-for _label, (_field, _when) in GENERAL_STATISTICS.items():
-    _ENS['row_' + _slug(_label)] = f"implies({_ALL}, {_row(_label, _field)})"
-_ENS['row_Number_of_free_parameters'] = f"implies({_ALL}, {_FREE_ROW})"
 
-# (2) one clause per combination of the five conditions (all results objects are in exactly one): every row written in
-#     that combination holds its quantity.  (Stated per combination because the solver is slow on the merged encoding of
-#     six conditional allocations; with the conditions fixed each clause is discharged in a fraction of a second.)
-for _bits in range(32):
-    _on = {c: bool(_bits >> k & 1) for k, c in enumerate(CONDITIONS)}
-    _scen = ' and '.join(f"({src})" if _on[c] else f"(not ({src}))" for c, src in CONDITIONS.items())
-    _rows = [_row(l, f) for l, (f, w) in GENERAL_STATISTICS.items() if _COND_OF[w] is None or _on[_COND_OF[w]]]
-    if _on['free']:
-        _rows.append(_FREE_ROW)
-    _name = 'rows_when_' + '_'.join(('' if _on[c] else 'no-') + c for c in CONDITIONS)
-    _ENS[_name] = f"implies({_scen}, {' and '.join(_rows)})"
+def clauses(monte_carlo: bool) -> dict:
+    """one clause per label: on every results object (with / without Monte-Carlo draws) on which the row's quantity
+    exists, the row is present and holds that quantity"""
+    guard = _MC if monte_carlo else f'not {_MC}'
+    suffix = '_with_draws' if monte_carlo else ''
+    out = {}
+    for label, (field, when) in GENERAL_STATISTICS.items():
+        if when == _MC and not monte_carlo:
+            continue
+        cond = guard if when in ('True', _MC) else f'{guard} and {when}'
+        out['row_' + _slug(label) + suffix] = f"implies({cond}, {_row(label, field)})"
+    out['row_Number_of_free_parameters' + suffix] = f"implies({guard} and {_FREE}, {_FREE_ROW})"
+    return out
+
+
+# Quick tier: all results objects without Monte-Carlo draws (each clause is discharged in a fraction of a second).
+# The same clauses for results objects WITH draws are added in the thorough tier by contracts/c08_tables_mc.py: the
+# comprehension that builds the 'Types of draws' row is encoded with quantified frame conditions, every row written
+# before it must be read through them, and each clause then costs several seconds of solver time.
+_ENS = clauses(monte_carlo=False)
 
 _GS_REPLAY = """
 import sys, warnings
@@ -92,7 +84,7 @@ sys.path.insert(0, '/verif/bounded')
 import c08_tables
 n, bad = c08_tables.run_views(cases=8, seed=0, only='general_statistics')
 slug = lambda t: ''.join(c if c.isalnum() else '_' for c in t).strip('_')
-row = payload.get('obligation', '').split(':row_')[-1].split('#')[0]
+row = payload.get('obligation', '').split(':row_')[-1].split('#')[0].replace('_with_draws', '')
 mine = [f for f in bad if slug(str(f.get('check')).split(':', 1)[-1]) == row]
 violated = bool(bad)
 detail = f'{n} cells compared with the raw fields; first mismatch: {(mine or bad)[0] if bad else None}'
